@@ -389,7 +389,8 @@ for _unit, _c in _CAL.items():
                  ("not_before_start", "forall(lambda k: implies(0 <= k < len(result), us(result[k]) >= us(t0)))"),
                  ("strictly_increasing", "forall(lambda k: implies(1 <= k < len(result), us(result[k - 1]) < us(result[k])))")])
     CONTRACTS["d3_time.d3_time_interval.range@%s_skip" % _unit] = dict(
-        _common, requires=["in_range_years(t0)", "in_range_years(t1)", "2 <= dt <= 60"],
+        # thorough tier only as well: one loop obligation of month_skip needed the 3x-budget stage in a quick run (58 s)
+        _common, thorough_tier_only=True, requires=["in_range_years(t0)", "in_range_years(t1)", "2 <= dt <= 60"],
         loops={0: {"modifies": ["list.len.dt", "list.elems.dt", "list.$pos.dt"], "locals": {"time": "dt"},
                    "inv": _inv_common + [
                        ("elements", "forall(lambda k: implies(0 <= k < len(times), %s(times[k]) and %s(times[k]) >= %s(time__0) "
